@@ -18,6 +18,9 @@ pub struct Case {
     pub limits: usize, // 0 wide, 1 tight
     pub initial: Joints,
     pub delta: [f64; 6],
+    /// how from / to are laid around the initial vector: 0 = initial -+ delta; 1 = from == to == initial + delta;
+    /// 2 = from == to == initial - delta; 3 = both on the same side (initial + delta/2, initial + delta)
+    pub shape: usize,
 }
 
 fn cell_for(c: &Case) -> CellDesc {
@@ -65,8 +68,12 @@ pub fn eval(c: &Case, pools: bool) -> Result<(Vec<(String, String)>, String), &'
     if robot.collides(&c.initial) {
         return Err("initial collides");
     }
-    let from: Joints = std::array::from_fn(|i| c.initial[i] - c.delta[i]);
-    let to: Joints = std::array::from_fn(|i| c.initial[i] + c.delta[i]);
+    let (from, to): (Joints, Joints) = match c.shape {
+        1 => (std::array::from_fn(|i| c.initial[i] + c.delta[i]), std::array::from_fn(|i| c.initial[i] + c.delta[i])),
+        2 => (std::array::from_fn(|i| c.initial[i] - c.delta[i]), std::array::from_fn(|i| c.initial[i] - c.delta[i])),
+        3 => (std::array::from_fn(|i| c.initial[i] + 0.5 * c.delta[i]), std::array::from_fn(|i| c.initial[i] + c.delta[i])),
+        _ => (std::array::from_fn(|i| c.initial[i] - c.delta[i]), std::array::from_fn(|i| c.initial[i] + c.delta[i])),
+    };
     let mut fails = Vec::new();
     let mut want: Vec<Joints> = Vec::new();
     let mut classes = [0usize; 3]; // offered, illegal, colliding
@@ -145,7 +152,7 @@ pub fn eval(c: &Case, pools: bool) -> Result<(Vec<(String, String)>, String), &'
 }
 
 fn case_json(c: &Case) -> Value {
-    json!({"presence": c.presence, "layout": c.layout, "safety": c.safety, "limits": c.limits, "initial": nums(&c.initial), "delta": nums(&c.delta)})
+    json!({"presence": c.presence, "layout": c.layout, "safety": c.safety, "limits": c.limits, "initial": nums(&c.initial), "delta": nums(&c.delta), "shape": c.shape})
 }
 
 pub fn run(ctx: &Ctx) -> Report {
@@ -174,7 +181,7 @@ pub fn run(ctx: &Ctx) -> Report {
         let d = ix[5];
         // delta vectors: joint i takes magnitude (d + i*(1 + d/4)) mod 4, so each joint sees each magnitude next to each neighbour magnitude
         let delta: [f64; 6] = std::array::from_fn(|i| mags[(d + i * (1 + d / 6)) % 6]);
-        let c = Case { presence: ix[0], layout: layouts[ix[1]], safety: ix[2], limits: ix[3], initial: initials[ix[4]], delta };
+        let c = Case { presence: ix[0], layout: layouts[ix[1]], safety: ix[2], limits: ix[3], initial: initials[ix[4]], delta, shape: if (idx / 3) % 2 == 0 { 0 } else { 1 + (idx as usize / 6) % 3 } };
         match eval(&c, idx % 8 == 0) {
             Err(_) => r.skipped_precondition += 1,
             Ok((fails, sig)) => {
@@ -201,7 +208,7 @@ pub fn run(ctx: &Ctx) -> Report {
     }
     rep.traces_validated = rep.transitions;
     rep.rule = "synthetic cell (with/without base and tool, moved base, parallelogram J2->J3 on top) x environments x safety {touch, 3 cm} x limits {wide, tight} x collision-free initial \
-                postures x from/to = initial -+ delta with per-joint magnitudes {0.35,0.8,1.3,1.8,2.2,2.9} (moving a joint into free space, self-collision, the base, \
+                postures x from/to = initial -+ delta (half of the cases: from == to on one side of the initial value, or both on the same side) with per-joint magnitudes {0.35,0.8,1.3,1.8,2.2,2.9} (moving a joint into free space, self-collision, the base, \
                 the environment or out of limits); oracle: the 12 single-joint candidates kept iff arc membership accepts them and the full collides() \
                 of the same robot reports them free, compared as multisets; every 8th case re-run in rayon pools of 1, 2, 4, 8, 16 threads; \
                 signature = (offered, illegal, colliding)".into();
@@ -212,7 +219,7 @@ pub fn run(ctx: &Ctx) -> Report {
 
 pub fn replay(case: &Value) -> Vec<String> {
     let u = |k: &str| case[k].as_u64().unwrap() as usize;
-    let c = Case { presence: u("presence"), layout: u("layout"), safety: u("safety"), limits: u("limits"), initial: as_arr6(&case["initial"]), delta: as_arr6(&case["delta"]) };
+    let c = Case { presence: u("presence"), layout: u("layout"), safety: u("safety"), limits: u("limits"), initial: as_arr6(&case["initial"]), delta: as_arr6(&case["delta"]), shape: case["shape"].as_u64().unwrap_or(0) as usize };
     match eval(&c, false) {
         Ok((f, _)) => f.into_iter().map(|(k, d)| format!("{k}: {d}")).collect(),
         Err(_) => vec![],
